@@ -945,15 +945,23 @@ def gen_equiv(rng, idx):
                 cfg_b += "config <<EOC\n" + "".join(b["text"] for b in reversed(case["biases"])) + "EOC\n"
         rsub = ":reordered" if reorder else ""
         rtol = 1e-9 if reorder else 0.0
+        # a third of the cases: the module that loads through the script has already run (the first steps of the same history):
+        # loading replaces what it had accumulated, as the engine-driven load into a fresh module defines
+        used = rng.random() < 0.34
+        if used:
+            rsub += ":used_instance"
+        # the load happens between two runs of the engine, whose next run starts by computing the current step again
+        pre = (step_block(case, 0, min(3, K + 1)) + "endrun\n") if used else ""
+        post = "newrun\n" if used else ""
         w = header(case) + "module\n" + cfg + "init\n" + step_block(case, 0, K + 1) + "save PREFIX.colvars.state\nsavestr\n"
         if kind == "load":
             a = header(case) + "module\n" + cfg + "inprefix PREFIX\ninit\nmark go\n" + step_block(case, K)
             arg = rng.choice(["PREFIX", "PREFIX.colvars.state"])
-            b = header(case) + "module\n" + cfg_b + "init\nscript " + json.dumps(["cv", "load", arg]) + "\nmark go\n" + step_block(case, K)
-            return dict(kind=kind, idx=idx, sub=("prefix" if arg == "PREFIX" else "filename") + rsub, scn={"W": w, "A": a, "B": b}, mark="go", case=case, tol=rtol)
+            b = header(case) + "module\n" + cfg_b + "init\n" + pre + "script " + json.dumps(["cv", "load", arg]) + "\n" + post + "mark go\n" + step_block(case, K)
+            return dict(kind=kind, idx=idx, sub=("prefix" if arg == "PREFIX" else "filename") + rsub, scn={"W": w, "A": a, "B": b}, mark="go", case=case, tol=rtol, used=used)
         a = header(case) + "module\n" + cfg + "init\nloadstr <<EOS\nSTATE_TEXTEOS\nmark go\n" + step_block(case, K)
-        b = header(case) + "module\n" + cfg_b + "init\nscript [\"cv\", \"loadfromstring\", STATE_JSON]\nmark go\n" + step_block(case, K)
-        return dict(kind=kind, idx=idx, sub="string" + rsub, scn={"W": w, "A": a, "B": b}, mark="go", case=case, tol=rtol)
+        b = header(case) + "module\n" + cfg_b + "init\n" + pre + "script [\"cv\", \"loadfromstring\", STATE_JSON]\n" + post + "mark go\n" + step_block(case, K)
+        return dict(kind=kind, idx=idx, sub="string" + rsub, scn={"W": w, "A": a, "B": b}, mark="go", case=case, tol=rtol, used=used)
     if kind == "delete":
         # A: everything defined, some objects deleted through the script; B: those objects never defined
         noext = [cv for cv in case["cvs"] if not cv["ext"]]
@@ -1114,13 +1122,141 @@ def check_equiv(c, job, res, sps):
     for x, y in zip(sa, sb):
         d = first_diff(x, y, tol=job.get("tol", 0.0))
         if d:
-            viol("equiv:%s" % kind + (":reordered" if job.get("tol") else ""), "step %s: %s" % (x.get("it"), d))
+            viol("equiv:%s" % kind + (":reordered" if job.get("tol") else "") + (":used_instance" if "used_instance" in job["sub"] else ""), "step %s: %s" % (x.get("it"), d))
             return False
     c.bump("equiv_steps_compared", len(sa))
     return True
 
 
 # ---------------------------------------------------------------------------------------------------------------
+# d. the same file name used again within a session: file path against string path, step by step
+# ---------------------------------------------------------------------------------------------------------------
+
+def run_reuse(c, idx, flavour):
+    """Two interactive sessions given the same history.  F (files): the configuration comes from `cv configfile conf.in`; at
+    two points every bias is saved to and loaded back from ONE file name (`cv bias b save p_b`, `cv bias b load p_b`: the
+    second save replaces the file of the first); then `cv reset`, conf.in replaced (write + rename) by another configuration
+    and read again.  S (strings): the same with `cv config`, `bias savetostring` / `bias loadfromstring`.  Every step event
+    of F must equal that of S."""
+    import interactive
+    rng = common.random.Random(c.seed * 32452843 + idx)
+    case = gen_agree(rng, idx)
+    sysm = case["sysm"]
+    pool = list(range(1, NATA + 1))
+    ct = rng.choice(["distance", "angle", "distanceZ", "gyration"])
+    cv = corpus.make_colvar(rng, sysm, pool, "s", ct, {}, extra_lines=["width 0.5"])
+    cv2 = corpus.make_colvar(rng, sysm, pool, "s", rng.choice(["distance", "gyration"]), {}, extra_lines=["width 0.25"])
+    T = 14
+    pos = sysm["pos"]
+    steps = []
+    for t in range(T):
+        pos = jitter(rng, pos, 0.2)
+        steps.append((pos, [[rng.uniform(-3, 3) for _ in range(3)] for _ in range(NATA)]))
+    x0 = {"distance": 3.0, "angle": 90.0, "distanceZ": 0.5, "gyration": 3.0}[ct]
+    biases = [("pull", "harmonic {\n  name pull\n  colvars s\n  centers %s\n  targetCenters %s\n  targetNumSteps 40\n  forceConstant %s\n  outputAccumulatedWork on\n}\n"
+               % (fnum(x0), fnum(x0 + rng.choice([-2.0, 3.0])), fnum(rng.uniform(0.5, 3.0)))),
+              ("mt", "metadynamics {\n  name mt\n  colvars s\n  hillWeight %s\n  hillWidth 2.0\n  newHillFrequency 1\n  useGrids off\n}\n" % fnum(rng.uniform(0.1, 1.0)))]
+    if rng.random() < 0.5:
+        biases = biases[:1] if rng.random() < 0.5 else biases[1:]
+    cfg1 = "colvarsTrajFrequency 0\n" + cv["text"] + "\n" + "".join(b for _, b in biases)
+    cfg2 = "colvarsTrajFrequency 0\n" + cv2["text"] + "\nharmonic {\n  name other\n  colvars s\n  centers 1.0\n  forceConstant 2.0\n}\n"
+    K1, K2, K3 = sorted(rng.sample(range(2, T - 2), 3))
+    wd = os.path.join(c.work, "reuse%d" % idx)
+    out = {}
+    files = []
+    for path in ("F", "S"):
+        sub = os.path.join(wd, path)
+        os.makedirs(sub, exist_ok=True)
+        w = interactive.Walker(flavour, sub, log="reuse_" + path)
+        evs = []
+
+        def script(argv):
+            e = w.send("script " + json.dumps(argv) + "\n")
+            evs.extend(e)
+            return [x for x in e if x["ev"] == "script"][-1]
+
+        def put_conf(text):
+            if path == "F":
+                tmp = os.path.join(sub, "conf.in.tmp")
+                with open(tmp, "w") as f:
+                    f.write(text)
+                os.rename(tmp, os.path.join(sub, "conf.in"))      # a new file under the old name, as editors and scripts do
+                return script(["cv", "configfile", "conf.in"])
+            return script(["cv", "config", text])
+
+        def cycle():
+            for b, _ in biases:
+                if path == "F":
+                    r1 = script(["cv", "bias", b, "save", "p_" + b])
+                    r2 = script(["cv", "bias", b, "load", "p_" + b])
+                else:
+                    r1 = script(["cv", "bias", b, "savetostring"])
+                    r2 = script(["cv", "bias", b, "loadfromstring", r1["res"]])
+        try:
+            evs += w.send(corpus.scenario_header(sysm, tfmode="same", extra="dt 1.0\ntemp 300.0") + "module\n")
+            put_conf(cfg1)
+            evs += w.send("init\n")
+            for t, (ps, fext) in enumerate(steps):
+                if t in (K1, K2):
+                    cycle()
+                if t == K3:
+                    script(["cv", "reset"])
+                    put_conf(cfg2)
+                evs += w.send(corpus.pos_line(ps) + "\n" + corpus.fext_line(fext) + "\nstep\n")
+            w.close()
+        except RuntimeError as ex:
+            w.close(kill=True)
+            out[path] = ("died", str(ex), evs)
+            files.append(os.path.join(sub, "reuse_%s.stderr" % path))
+            continue
+        with open(os.path.join(sub, "session.scn"), "w") as f:
+            f.write(w.script_text())
+        files.append(os.path.join(sub, "session.scn"))
+        out[path] = ("ok", "", evs)
+    return dict(idx=idx, out=out, files=files, wd=wd, T=T, K=(K1, K2, K3), biases=biases, ct=ct)
+
+
+def check_reuse(c, d):
+    idx, out, files, wd, T, biases, ct = d["idx"], d["out"], d["files"], d["wd"], d["T"], d["biases"], d["ct"]
+    K1, K2, K3 = d["K"]
+    c.count()
+    for path in ("F", "S"):
+        if out[path][0] != "ok":
+            err = open(os.path.join(wd, path, "reuse_%s.stderr" % path)).read()[-2000:]
+            if common.sanitizer_report(err) or "died (rc -" in out[path][1]:
+                c.violation("reuse_crash:%s:%s" % (path, src_frame(err)), "reuse case %d path %s: %s %s" % (idx, path, out[path][1], err[-300:]), files=files)
+            else:
+                c.inconc("reuse case %d path %s: %s" % (idx, path, out[path][1]))
+            return False
+    ef, es = out["F"][2], out["S"][2]
+    for k, evx in (("F", ef), ("S", es)):
+        bad = [e for e in evx if e["ev"] in ("script", "config", "init") and (e.get("rc") or e.get("err"))]
+        if bad:
+            other = es if k == "F" else ef
+            if any(e["ev"] in ("script", "config", "init") and (e.get("rc") or e.get("err")) for e in other):
+                c.inconc("reuse case %d: both paths report an error: %s" % (idx, str(bad[0].get("res"))[:200]))
+            else:
+                c.violation("reuse:error_on_one_path:%s" % k, "reuse case %d: path %s: %s fails (%s), the other path reports no error" % (
+                    idx, k, bad[0].get("argv", bad[0]["ev"]), str(bad[0].get("res") or bad[0].get("errs"))[:300]), files=files)
+            return False
+    sf = [e for e in ef if e["ev"] == "step"]
+    ss = [e for e in es if e["ev"] == "step"]
+    if len(sf) != T or len(ss) != T:
+        c.inconc("reuse case %d: %d / %d step events for %d steps" % (idx, len(sf), len(ss), T))
+        return False
+    for t, (x, y) in enumerate(zip(sf, ss)):
+        d = first_diff(x, y)
+        if d:
+            phase = "after_second_configfile" if t >= K3 else "after_second_bias_load" if t >= K2 else "after_first_bias_load" if t >= K1 else "before"
+            c.violation("reuse:%s" % phase, "reuse case %d (biases %s; save/load before steps %d and %d, reset + new configuration before step %d): "
+                        "step %d of the session using files (F) differs from the session using strings (S): %s" % (
+                            idx, [b for b, _ in biases], K1, K2, K3, t, d), files=files)
+            return False
+    # the second load must have mattered: state at K2 differs from state at K1 (hills added / centre moved), by construction
+    c.bump("reuse_steps_compared", T)
+    c.nontrivial("reuse|%s|%s" % (ct, "+".join(b for b, _ in biases)))
+    return True
+
 
 def run(tier, replay):
     c = common.Check("C20", tier)
@@ -1204,6 +1340,11 @@ def run(tier, replay):
             neq_ok[job["kind"]] += 1
             c.nontrivial("equiv|%s|%s%s" % (job["kind"], job["sub"].split("@")[0].split(":")[0], "|reordered" if job.get("tol") else ""))
     c.extra["equivalence_pairs_equal"] = dict(neq_ok)
+
+    # d. reuse of file names within a session
+    nre = 24 if tier == "quick" else 400
+    nre_ok = sum(1 for d in common.pmap(lambda i: run_reuse(c, i, "asan" if (asan_ok and i % 8 == 0) else "plain"), list(range(nre))) if check_reuse(c, d))
+    c.extra["file_reuse_sessions_equal"] = nre_ok
     c.sample({"agreement_scenarios": nag_ok, "equivalence_pairs": dict(neq_ok), "fuzz_executions": execs,
               "commands_not_reached": missing[:10]})
 
@@ -1223,4 +1364,7 @@ def run(tier, replay):
     if sum(neq_ok.values()) < (50 if tier == "quick" else 1200) or len(neq_ok) < 5:
         ok = False
         why.append("equivalence pairs %s" % dict(neq_ok))
+    if nre_ok < nre * 0.8:
+        ok = False
+        why.append("file-reuse sessions %d of %d" % (nre_ok, nre))
     return c.finish(ok, "; ".join(why))
